@@ -3,6 +3,8 @@
 import json, os, re, glob
 V = os.path.dirname(os.path.dirname(os.path.abspath(__file__)))
 props = {json.loads(l)["id"]: json.loads(l) for l in open(os.path.join(V, "properties.jsonl"))}
+NOT_CAUGHT = {"C01_2": "NOT CAUGHT - outside the stated bounds: the change only shows when one unit is flagged by BOTH outlier models, which need "
+              "more than 20 modelled reporting units and an LP solve inside the eligibility code (excluded from C01 / C09, see DESIGN.md section 5)"}
 rows = []
 for d in sorted(glob.glob(os.path.join(V, "seeded", "C*_*"))):
     sid = os.path.basename(d)
@@ -39,6 +41,6 @@ for d in sorted(glob.glob(os.path.join(V, "seeded", "C*_*"))):
 with open(os.path.join(V, "seeded", "README.md"), "w") as f:
     f.write("# Seeded property-breaking changes\n\nEach directory holds `patch.diff` (applies to /repo HEAD), `demo.py` (the author's demonstration: exit 0 on the unchanged tree, non-zero with the change), `notes.md` (author's notes), `verification.json` (my confirmation in a scratch worktree: patch applies, the full suite still gives 156 passed / the 2 baseline failures, demo passes without and fails with the change), `check.log` (output of the property's quick check with the change applied to /repo, reverted afterwards) and `meta.json`.\n\nNone of these changes is committed to /repo.\n\n| seed | caught by | first violation line / reason not caught |\n|---|---|---|\n")
     for m in rows:
-        why = m["violation_lines"][0] if m["violation_lines"] else "NOT CAUGHT"
+        why = m["violation_lines"][0] if m["violation_lines"] else NOT_CAUGHT.get(m["seed"], "NOT CAUGHT")
         f.write("| %s | %s | %s |\n" % (m["seed"], ", ".join(m["caught_by"]) or "-", why.replace("|", "/")))
 print(len(rows), "seeds;", sum(1 for m in rows if m["caught_by"]), "caught")
